@@ -391,7 +391,12 @@ static void data_to_f64(struct jls_core_fsr_s * self) {
     void * src = &self->data->data[0];
     double * dst = self->data_f64;
     const uint32_t count = self->data->header.entry_count;
-    jls_dt_buffer_to_f64(src, self->parent->signal_def.data_type, dst, count);
+    if (jls_dt_buffer_to_f64(src, self->parent->signal_def.data_type, dst, count)) {
+        // no conversion for this data type (24-bit): summarize as "no data" rather than from uninitialized memory
+        for (uint32_t i = 0; i < count; ++i) {
+            dst[i] = NAN;
+        }
+    }
 }
 
 int32_t jls_core_fsr_summary1(struct jls_core_fsr_s * self, int64_t pos) {
